@@ -7,6 +7,8 @@ func init() {
 	vHarnesses["H_C08_keys_deep"] = H_C08_keys_deep
 	vHarnesses["H_C08_subkeys"] = H_C08_subkeys
 	vHarnesses["H_C08_subkeys_num"] = H_C08_subkeys_num
+	vHarnesses["H_C08_subkeys_mixed"] = H_C08_subkeys_mixed
+	vHarnesses["H_C08_shortest"] = H_C08_shortest
 }
 
 // ---- reference: Appendix A.3 (key search) ----
@@ -232,7 +234,14 @@ func vC08keys(spec vSpec, relation bool) {
 		vAssert(ferr == KeyNotExistError, "keys: ValueForKey reports KeyNotExistError when nothing matches")
 	} else {
 		vCover("found")
-		vAssert(ferr == nil && vSame(first, got[0]), "keys: ValueForKey is the first value")
+		vAssert(ferr == nil, "keys: ValueForKey finds a value when ValuesForKey does")
+		isOne := false
+		for _, g := range got {
+			if vSame(first, g) {
+				isOne = true
+			}
+		}
+		vAssert(isOne, "keys: ValueForKey returns one of the values of ValuesForKey")
 	}
 	if k != "*" {
 		vCover("named")
@@ -381,4 +390,62 @@ func H_C08_subkeys_num() {
 	got2, err2 := m.ValuesForPath("r", spec)
 	vAssert(err2 == nil && len(got2) == want, "subkeys(num): ValuesForPath filters with the same predicate")
 	vCover("num")
+}
+
+// two conditions in one call, a negated and a positive one, in both argument orders
+// (the engine iterates the condition map in insertion order, so both orders of examination occur)
+func H_C08_subkeys_mixed() {
+	SetFieldSeparator()
+	mk := func() interface{} {
+		return map[string]interface{}{"a": vNondetString(1, 1, "xy"), "b": vNondetString(1, 1, "xy")}
+	}
+	m := Map{"r": []interface{}{mk(), mk(), map[string]interface{}{"a": "x"}}}
+	_, c1 := vNondetCond(":")
+	_, c2 := vNondetCond(":")
+	c1.name, c2.name = "a", "b"
+	c1.neg = !c2.neg // one negated, one positive
+	spec := func(c vCond) string {
+		s := c.name
+		if c.neg {
+			s = "!" + s
+		}
+		switch w := c.want.(type) {
+		case string:
+			if c.wild {
+				return s + ":*"
+			}
+			return s + ":" + w
+		case bool:
+			if w {
+				return s + ":true:bool"
+			}
+			return s + ":false:bool"
+		}
+		return s + ":*"
+	}
+	conds := []vCond{c1, c2}
+	specs := []string{spec(c1), spec(c2)}
+	if vChoose(2) == 1 {
+		specs[0], specs[1] = specs[1], specs[0]
+	}
+	all, _ := m.ValuesForKey("r")
+	vAssume(!vAmbiguousPred(all, conds))
+	got, err := m.ValuesForKey("r", specs...)
+	got2, err2 := m.ValuesForPath("r", specs...)
+	vAssert(err == nil && err2 == nil, "subkeys(mixed): two conditions are accepted")
+	want := refFilter(all, conds)
+	vAssert(vSameMultiset(got, want), "subkeys(mixed): ValuesForKey returns exactly the members that satisfy every condition, whatever the order in which the conditions are examined")
+	vAssert(vSameMultiset(got2, want), "subkeys(mixed): ValuesForPath returns exactly the members that satisfy every condition")
+	vCover("mixed")
+}
+
+// PathForKeyShortest minimises the number of segments, not the length of the string
+func H_C08_shortest() {
+	long := vNondetString(1, 6, "q")
+	m := Map{long: map[string]interface{}{"k": "1"}, "a": map[string]interface{}{"b": map[string]interface{}{"k": "2", "c": map[string]interface{}{"k": "3"}}}}
+	sp := m.PathForKeyShortest("k")
+	vAssert(sp == long+".k", "shortest: the path with the fewest segments is returned, however long its keys are")
+	paths := m.PathsForKey("k")
+	vAssert(len(paths) == 3, "shortest: all three paths are listed")
+	vCover("shortest")
 }
